@@ -51,9 +51,9 @@ pub fn c13_case() -> impl Strategy<Value = Case> {
         prop_oneof![6 => Just(None), 1 => (1u8..3).prop_map(Some)],
         prop_oneof![6 => Just(LS::Ok), 1 => Just(LS::Err), 1 => (1u8..=3).prop_map(LS::PendingUntil)],
         schedule(300),
-        (prop::collection::vec(0u8..3, 0..3), prop::bool::weighted(0.35), prop_oneof![5 => Just(None), 2 => (1u8..4, 1u8..=3).prop_map(Some)], prop::bool::weighted(0.4)),
+        (prop::collection::vec(0u8..3, 0..3), prop::bool::weighted(0.35), prop_oneof![5 => Just(None), 2 => (1u8..4, 1u8..=3).prop_map(Some)], prop::bool::weighted(0.4), prop_oneof![1 => Just(0u8), 3 => 0u8..12]),
     )
-        .prop_map(|((o0, o1, c0, c1), side, bend, peer, read, write, flush_err_at, shutdown, schedule, (extra_parks, plain, flush_pending, vectored))| {
+        .prop_map(|((o0, o1, c0, c1), side, bend, peer, read, write, flush_err_at, shutdown, schedule, (extra_parks, plain, flush_pending, vectored, err_kind))| {
             let mut peer = peer;
             // the peer may start reading late (credit starvation for the bridge)
             for (k, p) in extra_parks.iter().enumerate() {
@@ -68,7 +68,7 @@ pub fn c13_case() -> impl Strategy<Value = Case> {
                 opts: [o0, o1],
                 cap: [c0, c1],
                 streams: vec![StreamSpec { side, port: 22, pad: vec![], delay: 0, park: None, cancel: None, ends }],
-                bridges: vec![BridgeSpec { stream: 0, end: bend, read, write, flush_err_at, shutdown, plain, flush_pending, vectored }],
+                bridges: vec![BridgeSpec { stream: 0, end: bend, read, write, flush_err_at, shutdown, plain, flush_pending, vectored, err_kind }],
                 events,
                 schedule,
                 ..Case::default()
@@ -237,7 +237,7 @@ pub fn burst_case(i: u64) -> Case {
     Case {
         opts: [OptsSpec { rwnd: 8, thr: 4, ..OptsSpec::default() }, OptsSpec { rwnd: 8, thr: 2, ..OptsSpec::default() }],
         streams: vec![StreamSpec { side: 0, port: 22, pad: vec![], delay: 0, park: None, cancel: None, ends }],
-        bridges: vec![BridgeSpec { stream: 0, end: 0, read, write: vec![], flush_err_at: None, shutdown: LS::Ok, plain, flush_pending: None, vectored: false }],
+        bridges: vec![BridgeSpec { stream: 0, end: 0, read, write: vec![], flush_err_at: None, shutdown: LS::Ok, plain, flush_pending: None, vectored: false, err_kind: 0 }],
         events: (1u8..=3).map(|n| RawEvent { when: Trigger::Quiescent, what: What::Wake(n) }).collect(),
         step_bound: 2_000_000,
         ..Case::default()
